@@ -1,8 +1,163 @@
-(* Property C08 - statements; proofs in Proofs/*.v (work in progress). *)
-Require Import V.Base.MachineInt V.Model.LogBase V.Model.Broadcast V.Model.BroadcastShow V.Spec.Lossy V.Oracle.C08Oracle.
+(* Property C08 - driver-event broadcast: events arrive in order, intact; any loss is reported.
+   Statements only; proofs in Proofs/BroadcastMem.v, BroadcastInv.v, BroadcastRefine.v, LossyProofs.v,
+   C08Proofs.v (sequential part) and Proofs/BroadcastThreadsProofs.v (concurrent part).
+
+   Vocabulary.  run_history m w cap c0 pre h: the byte-level model (Model/Broadcast.v) of
+   BroadcastTransmitter + CopyBroadcastReceiver over one buffer of capacity cap whose three trailer
+   counters start at c0; `pre` are transmits made before the receiver is created, `h` the history of
+   Transmit / Receive / Dump afterwards.  w = W64 is the repaired do_validate (fixes/C08-validate-i64.diff),
+   w = W32 the code as found.  spec_history: the lossy channel of Spec/Lossy.v (positions only).
+   hist_ok cap w c0 pre h: 0 <= c0, c0 a multiple of 8, message types are i32 values and
+   c0 + 2*cap*(number of operations) < lim cap w, where lim = 2^62 for W64 and 2^31 - cap for W32. *)
+From Coq Require Import String.
+Require Import V.Base.MachineInt V.Generated.GenConsts V.Model.LogBase V.Model.Broadcast V.Model.BroadcastShow
+               V.Spec.Lossy V.Oracle.C08Oracle
+               V.Proofs.BroadcastMem V.Proofs.BroadcastInv V.Proofs.BroadcastRefine V.Proofs.LossyProofs V.Proofs.C08Proofs.
 Open Scope Z_scope.
 
-Example C08_smoke :
-  holds_seq 64 0 [] [Transmit 3841 (payload 1 5); Receive; Receive]
-    (map show_obs (run_history Debug W64 64 0 [] [Transmit 3841 (payload 1 5); Receive; Receive])) = true.
-Proof. vm_compute. reflexivity. Qed.
+(* K1: the layout constants the model uses are the ones the compiler produced *)
+Example C08_layout :
+  intent_idx 1024 = 1024 /\ tail_idx 1024 = 1032 /\ latest_idx 1024 = 1040 /\ buf_len 1024 = 1152 /\
+  HL = 8 /\ RA = 8 /\ PADDING = -1 /\ max_msg 1024 = BC_MAX_MSG_1024.
+Proof. repeat split; reflexivity. Qed.
+
+(* The model refines the lossy channel on every history: same results, same lapped counts, same errors. *)
+Theorem C08_refines : forall cap k m c0 pre h,
+  cap = 2 ^ k -> 5 <= k <= 30 -> hist_ok cap W64 c0 pre h ->
+  map erase (run_history m W64 cap c0 pre h) = spec_history cap c0 pre h.
+Proof. intros cap k m c0 pre h Hc Hk (A & B & C & D & E). now apply (history_refines cap k Hc Hk). Qed.
+Print Assumptions C08_refines.
+
+(* delivered is a subsequence of transmitted: same types, same bytes, same order *)
+Theorem C08_order : forall cap k m c0 pre h,
+  cap = 2 ^ k -> 5 <= k <= 30 -> hist_ok cap W64 c0 pre h ->
+  subseq (delivered (run_history m W64 cap c0 pre h)) (transmitted_pre cap pre ++ transmitted cap h).
+Proof. intros cap k m c0 pre h Hc Hk. exact (model_order cap k Hc Hk m W64 c0 pre h). Qed.
+Print Assumptions C08_order.
+
+(* while the backlog (tail-intent - next_record) is below cap at every Receive: no error, no panic,
+   and delivered ++ (what is still outstanding at the end) = (what was outstanding at the start) ++ transmitted *)
+Theorem C08_complete : forall cap k m c0 pre h,
+  cap = 2 ^ k -> 5 <= k <= 30 -> hist_ok cap W64 c0 pre h ->
+  never_lapped cap (spec_init cap c0 pre) h ->
+  Forall deliverable (transmitted_pre cap pre) -> Forall deliverable (transmitted cap h) ->
+  let s0 := spec_init cap c0 pre in
+  let sf := spec_final cap s0 h in
+  Forall clean (run_history m W64 cap c0 pre h) /\
+  delivered (run_history m W64 cap c0 pre h) ++ pending (s_ch sf) (s_next (s_rx sf))
+    = pending (s_ch s0) (s_next (s_rx s0)) ++ transmitted cap h /\
+  s_lapped (s_rx sf) = 0.
+Proof. intros cap k m c0 pre h Hc Hk. exact (model_complete cap k Hc Hk m W64 c0 pre h). Qed.
+Print Assumptions C08_complete.
+
+Theorem C08_complete_from_start : forall cap k m c0 h,
+  cap = 2 ^ k -> 5 <= k <= 30 -> hist_ok cap W64 c0 [] h ->
+  never_lapped cap (spec_init cap c0 []) h -> Forall deliverable (transmitted cap h) ->
+  let sf := spec_final cap (spec_init cap c0 []) h in
+  Forall clean (run_history m W64 cap c0 [] h) /\
+  delivered (run_history m W64 cap c0 [] h) ++ pending (s_ch sf) (s_next (s_rx sf)) = transmitted cap h.
+Proof. intros cap k m c0 h Hc Hk. exact (model_complete_from_start cap k Hc Hk m W64 c0 h). Qed.
+Print Assumptions C08_complete_from_start.
+
+(* a Receive that returns 0 messages means nothing transmitted so far is outstanding *)
+Theorem C08_drained : forall cap ch r r',
+  sinv ch -> s_next r <= c_tail ch ->
+  spec_receive cap ch r = Some (r', RNone) -> pending ch (s_next r) = [].
+Proof. exact spec_drained. Qed.
+Print Assumptions C08_drained.
+
+(* lapped: the first Receive after the lap returns UnableToKeepUp (lapped count + 1) and delivers
+   nothing; every later delivery is an event transmitted after that Receive *)
+Theorem C08_overrun : forall cap k m c0 pre h1 h2,
+  cap = 2 ^ k -> 5 <= k <= 30 -> hist_ok cap W64 c0 pre (h1 ++ Receive :: h2) ->
+  let s0 := spec_init cap c0 pre in
+  let s1 := spec_final cap s0 h1 in
+  Forall (fun o => o <> OPanic) (spec_run cap s0 h1) ->
+  cap <= backlog (s_ch s1) (s_rx s1) ->
+  let os := run_history m W64 cap c0 pre (h1 ++ Receive :: h2) in
+  nth_error os (length h1) = Some (Rx (s_lapped (s_rx s1) + 1) (RErr UnableToKeepUp)) /\
+  subseq (delivered (skipn (S (length h1)) os)) (transmitted cap h2).
+Proof. intros cap k m c0 pre h1 h2 Hc Hk. exact (model_overrun cap k Hc Hk m W64 c0 pre h1 h2). Qed.
+Print Assumptions C08_overrun.
+
+(* C08_wide: none of the above depends on c0 < 2^31 - they are stated for every c0 with
+   c0 + 2*cap*ops < 2^62.  The code as found (W32) satisfies them only below 2^31 - cap ... *)
+Theorem C08_narrow_i32 : forall cap k m c0 pre h,
+  cap = 2 ^ k -> 5 <= k <= 30 -> hist_ok cap W32 c0 pre h ->
+  map erase (run_history m W32 cap c0 pre h) = spec_history cap c0 pre h.
+Proof. intros cap k m c0 pre h Hc Hk (A & B & C & D & E). now apply (history_refines cap k Hc Hk). Qed.
+Print Assumptions C08_narrow_i32.
+
+(* ... and violates them beyond (witnesses; each was replayed on the implementation):
+   debug build: the first Receive panics (i32 overflow in `cursor + self.capacity`);
+   release build: a receiver 16 bytes behind is told it was lapped and loses the message;
+   release build: a receiver that really was lapped (144 >= 64 bytes behind) is not told and
+   is handed message 9 before messages 6, 7, 8 *)
+Definition t8 (k : Z) : op := Transmit 3841 (payload k 8).
+Example C08_wide_refuted_i32 :
+  run_history Debug W32 32 2147483616 [] [Transmit 7 (payload 745 4); Receive] = [TxOk; OPanic] /\
+  run_history Release W32 64 2147483584 [] [Transmit 3841 (payload 1 5); Receive]
+    = [TxOk; Rx 1 (RErr UnableToKeepUp)] /\
+  delivered (run_history Release W32 64 2147483520 []
+     [t8 1; t8 2; t8 3; t8 4; t8 5; t8 6; t8 7; t8 8; t8 9; Receive; Receive; Receive; Receive])
+    = [(3841, payload 9 8); (3841, payload 6 8); (3841, payload 7 8); (3841, payload 8 8)].
+Proof. repeat split; vm_compute; reflexivity. Qed.
+
+(* the same three histories on the repaired code *)
+Example C08_wide_repaired :
+  run_history Debug W64 32 2147483616 [] [Transmit 7 (payload 745 4); Receive]
+    = [TxOk; Rx 0 (RMsg 7 (payload 745 4))] /\
+  run_history Release W64 64 2147483584 [] [Transmit 3841 (payload 1 5); Receive]
+    = [TxOk; Rx 0 (RMsg 3841 (payload 1 5))] /\
+  run_history Release W64 64 2147483520 []
+     [t8 1; t8 2; t8 3; t8 4; t8 5; t8 6; t8 7; t8 8; t8 9; Receive; Receive]
+    = [TxOk; TxOk; TxOk; TxOk; TxOk; TxOk; TxOk; TxOk; TxOk; Rx 1 (RErr UnableToKeepUp); Rx 1 RNone].
+Proof. repeat split; vm_compute; reflexivity. Qed.
+
+(* the oracle applied to the model's own observations is true on every history *)
+Theorem C08_oracle_seq : forall cap k m c0 pre h,
+  cap = 2 ^ k -> 5 <= k <= 30 -> hist_ok cap W64 c0 pre h ->
+  holds_seq cap c0 pre h (map show_obs (run_history m W64 cap c0 pre h)) = true.
+Proof. intros cap k m c0 pre h Hc Hk. exact (oracle_seq_model cap k Hc Hk m W64 c0 pre h). Qed.
+Print Assumptions C08_oracle_seq.
+
+(* the hex rendering used to transport observations loses nothing *)
+Theorem C08_hex_injective : forall a b, bytes_ok a -> bytes_ok b -> hex a = hex b -> a = b.
+Proof. exact hex_inj. Qed.
+Print Assumptions C08_hex_injective.
+
+(* ---- non-vacuity ---- *)
+(* a history starting beyond 2^31 and one starting at 2^40 satisfy the hypotheses; the second one laps *)
+Example C08_hist_ok_example :
+  hist_ok 64 W64 2147483584 [(3842, payload 7 3)] [Transmit 3841 (payload 1 5); Receive; Receive; Dump] /\
+  hist_ok 64 W64 1099511627776 [] [t8 1; t8 2; t8 3; t8 4; t8 5; Receive; t8 6; Receive; Receive].
+Proof.
+  unfold hist_ok, lim, t8, op_ok. cbn [fst length].
+  repeat split; try (repeat constructor; reflexivity); try reflexivity; try lia.
+Qed.
+
+Example C08_never_lapped_example :
+  never_lapped 64 (spec_init 64 2147483584 []) [Transmit 3841 (payload 1 5); Receive; t8 2; t8 3; Receive; Receive; Receive] /\
+  Forall deliverable (transmitted 64 [Transmit 3841 (payload 1 5); Receive; t8 2; t8 3; Receive; Receive; Receive]) /\
+  delivered (run_history Debug W64 64 2147483584 [] [Transmit 3841 (payload 1 5); Receive; t8 2; t8 3; Receive; Receive; Receive])
+    = [(3841, payload 1 5); (3841, payload 2 8); (3841, payload 3 8)].
+Proof.
+  split; [|split].
+  - vm_compute. repeat split; intros; discriminate.
+  - unfold t8. cbn. repeat constructor; vm_compute; intros; discriminate.
+  - vm_compute. reflexivity.
+Qed.
+
+Example C08_overrun_example :
+  let h1 := [t8 1; t8 2; t8 3; t8 4; t8 5] in
+  let s1 := spec_final 64 (spec_init 64 1099511627776 []) h1 in
+  64 <= backlog (s_ch s1) (s_rx s1) /\
+  Forall (fun o => o <> OPanic) (spec_run 64 (spec_init 64 1099511627776 []) h1) /\
+  run_history Release W64 64 1099511627776 [] (h1 ++ Receive :: [t8 6; Receive; Receive])
+    = [TxOk; TxOk; TxOk; TxOk; TxOk; Rx 1 (RErr UnableToKeepUp); TxOk; Rx 1 (RMsg 3841 (payload 6 8)); Rx 1 RNone].
+Proof.
+  cbn zeta. split; [|split].
+  - vm_compute. intros; discriminate.
+  - vm_compute. repeat constructor; intros; discriminate.
+  - vm_compute. reflexivity.
+Qed.
